@@ -151,7 +151,22 @@ class Ctx:
     def __init__(self):
         self.k = 0
 
-def _gen_loop(ctx, srcs, names, body_text, fired):
+def _exit_rewrite(body_text, kind, K):
+    """control transfers in an inlined iteration body: a closure's `return;` ends THIS iteration, a `for` body's `continue;` must still advance the generated counter.
+    kind: 'closure-gen' (closure inlined into a generated while loop), 'closure-for' (closure inlined into a native for loop), 'for-gen' (for body moved into a generated while loop).
+    Anything beyond the plain unit forms (a value-carrying return, nested loops / closures around the transfer) is refused: ExtractError -> undecided."""
+    word = 'return' if kind.startswith('closure') else 'continue'
+    if not re.search(r'\b' + word + r'\b', body_text):
+        return body_text
+    if re.search(r'\b' + word + r'\b\s*[^;\s]', body_text):
+        raise ExtractError(f'R4: `{word}` with a value / label inside an inlined iteration body is not supported')
+    if re.search(r'\b(for|while|loop)\b', body_text) or re.search(r'\|[^|]*\|\s*[{(\w]', body_text):
+        raise ExtractError(f'R4: `{word}` inside an iteration body that itself contains loops or closures is not supported')
+    if kind == 'closure-for':
+        return re.sub(r'\breturn\s*;', 'continue;', body_text)
+    return re.sub(r'\b' + word + r'\s*;', '{ i__%d += 1; continue; }' % K, body_text)
+
+def _gen_loop(ctx, srcs, names, body_text, fired, kind='for-gen'):
     ctx.k += 1
     K = ctx.k
     enum_name = None
@@ -211,7 +226,7 @@ def _gen_loop(ctx, srcs, names, body_text, fired):
             idx = f'{idx} + ({s.skip})'
         amp = '&mut ' if s.mutable else '&'
         lines.append(f'let {new} = {amp}{s.expr}[{idx}];')
-    bt = body_text.strip()
+    bt = _exit_rewrite(body_text, kind, K).strip()
     lines.append(bt if bt.endswith('}') or bt.endswith(';') else bt + ';')
     lines.append(f'i__{K} += 1;')
     lines.append('}')
@@ -281,13 +296,14 @@ def apply(body, fired):
                 # S5: (lo..hi).for_each(|i| BODY)
                 if rc and rc[0].text == '(' and rc[-1].text == ')' and '..' in text_of(rc) and len(names) == 1:
                     rng = text_of(recv).strip()[1:-1]
-                    rep = f'for {names[0]} in {rng} {{\n{closure_body.strip()}{"" if closure_body.strip().endswith(("}", ";")) else ";"}\n}}'
+                    cb_ = _exit_rewrite(closure_body, 'closure-for', 0)
+                    rep = f'for {names[0]} in {rng} {{\n{cb_.strip()}{"" if cb_.strip().endswith(("}", ";")) else ";"}\n}}'
                     fired.add('R4')
                 else:
                     srcs = _parse_chain(recv)
                     if srcs is None:
                         continue
-                    rep = _gen_loop(ctx, srcs, names, closure_body, fired)
+                    rep = _gen_loop(ctx, srcs, names, closure_body, fired, kind='closure-gen')
                     if rep is None:
                         continue
                 end = toks[semi].end if semi < n and toks[semi].text == ';' else toks[close].end
